@@ -1761,4 +1761,175 @@ theorem xMulLawsOn : MulLawsOn X.ops where
     intro a b
     cases a <;> cases b <;> simp [X.ops, X.lt, X.add] <;> omega
 
+/-! ### round 7: run contracts DERIVED from named IEEE laws (temperature stage, guard) -/
+
+/-- a finite positive divisor (what `max(temp, 1e-7)` is for every temperature a request can carry) -/
+def posFinite (o : Ops α) (t : α) : Prop :=
+  o.isNaN t = false ∧ o.lt o.zero t = true ∧ o.lt t o.posInf = true
+
+/-- division by a finite positive number on non-NaN values: stays non-NaN, keeps the order, keeps
+    `-Inf`, keeps the sign of non-positive values, `0/t > -Inf`; and `0 < +Inf` -/
+structure ScaleLawsOn (o : Ops α) : Prop where
+  div_good : ∀ a t, o.isNaN a = false → posFinite o t → o.isNaN (o.div a t) = false
+  div_mono : ∀ a b t, o.isNaN a = false → o.isNaN b = false → posFinite o t →
+    o.lt a b = false → o.lt (o.div a t) (o.div b t) = false
+  div_negInf : ∀ v t, posFinite o t → o.beq v o.negInf = true → o.beq (o.div v t) o.negInf = true
+  div_nonpos : ∀ a t, o.isNaN a = false → posFinite o t → o.lt o.zero a = false →
+    o.lt o.zero (o.div a t) = false
+  div_zero : ∀ t, posFinite o t → o.lt o.negInf (o.div o.zero t) = true
+  zero_lt_posInf : o.lt o.zero o.posInf = true
+  posInfGood : o.isNaN o.posInf = false
+
+/-- **the `temperature` stage establishes its own contract** (`scaleOK`: still descending, `-Inf ↦ -Inf`)
+    and keeps the values NaN-free, for every descending NaN-free list and finite positive divisor -/
+theorem scale_contract_of_laws {o : Ops α} (hs : ScaleLawsOn o) (temp : α) (vs : List α)
+    (ht : posFinite o (fmax o temp o.tempFloor))
+    (hv : ∀ v ∈ vs, o.isNaN v = false) (hdesc : isDesc o vs = true) :
+    scaleOK o vs (scaleVals o temp vs) = true ∧ ∀ s ∈ scaleVals o temp vs, o.isNaN s = false := by
+  unfold scaleVals
+  simp only
+  generalize fmax o temp o.tempFloor = t at ht
+  refine ⟨?_, ?_⟩
+  · unfold scaleOK
+    simp only [List.length_map, beq_self_eq_true, Bool.true_and, Bool.and_eq_true]
+    constructor
+    · -- still descending
+      induction vs with
+      | nil => rfl
+      | cons a rest ih =>
+        cases rest with
+        | nil => rfl
+        | cons b rest' =>
+          simp only [isDesc, Bool.and_eq_true, Bool.not_eq_true'] at hdesc
+          simp only [List.map_cons, isDesc, Bool.and_eq_true, Bool.not_eq_true']
+          refine ⟨hs.div_mono a b t (hv a List.mem_cons_self)
+            (hv b (List.mem_cons_of_mem _ List.mem_cons_self)) ht hdesc.1, ?_⟩
+          exact ih (fun v hv' => hv v (List.mem_cons_of_mem _ hv')) hdesc.2
+    · -- -Inf ↦ -Inf
+      rw [List.all_eq_true]
+      intro x hx
+      induction vs with
+      | nil => simp at hx
+      | cons a rest ih =>
+        simp only [List.map_cons, List.zipWith_cons_cons, List.mem_cons] at hx
+        rcases hx with rfl | hx
+        · cases hb : o.beq a o.negInf with
+          | false => simp
+          | true => simp [hs.div_negInf a t ht hb]
+        · exact ih (fun v hv' => hv v (List.mem_cons_of_mem _ hv'))
+            (by
+              cases rest with
+              | nil => rfl
+              | cons b rest' =>
+                simp only [isDesc, Bool.and_eq_true] at hdesc
+                exact hdesc.2) hx
+  · intro s hs'
+    obtain ⟨v, hv', rfl⟩ := List.mem_map.1 hs'
+    exact hs.div_good v t (hv v hv') ht
+
+/-- **the guard `guardOK` is established by shift + scale**: if the shifted list starts with `0` and
+    nothing in it is positive (what `shiftMax` produces from a descending list), every scaled value
+    is NaN-free and below `+Inf`, and the first one is above `-Inf` -/
+theorem guard_of_laws {o : Ops α} (h : OrdLawsOn o) (hs : ScaleLawsOn o) (temp : α) (rest : List α)
+    (ht : posFinite o (fmax o temp o.tempFloor))
+    (hv : ∀ v ∈ o.zero :: rest, o.isNaN v = false)
+    (hnp : ∀ v ∈ o.zero :: rest, o.lt o.zero v = false) :
+    guardOK o (scaleVals o temp (o.zero :: rest)) = true := by
+  unfold scaleVals
+  simp only
+  generalize fmax o temp o.tempFloor = t at ht
+  unfold guardOK
+  simp only [List.map_cons, Bool.and_eq_true, List.all_eq_true, Bool.not_eq_true']
+  refine ⟨?_, hs.div_zero t ht⟩
+  intro s hs'
+  have hs'' : s ∈ (o.zero :: rest).map (fun v => o.div v t) := by simpa using hs'
+  obtain ⟨v, hvm, rfl⟩ := List.mem_map.1 hs''
+  have hg := hs.div_good v t (hv v hvm) ht
+  refine ⟨hg, ?_⟩
+  have hle := hs.div_nonpos v t (hv v hvm) ht (hnp v hvm)
+  rcases h.cotrans o.zero (o.div v t) o.posInf h.zero hg hs.posInfGood hs.zero_lt_posInf with h1 | h1
+  · rw [hle] at h1; cases h1
+  · exact h1
+
+theorem xScaleLawsOn : ScaleLawsOn X.ops where
+  div_good := by
+    intro a t ha ⟨ht1, ht2, ht3⟩
+    cases a <;> cases t <;> simp_all [X.ops, X.div, X.lt]
+  div_mono := by
+    intro a b t ha hb ⟨ht1, ht2, ht3⟩
+    cases a <;> cases b <;> cases t <;> simp_all [X.ops, X.div, X.lt]
+    rename_i a b c
+    intro hab
+    exact Int.ediv_le_ediv ht2 hab
+  div_negInf := by
+    intro v t ⟨ht1, ht2, ht3⟩
+    cases v <;> cases t <;> simp_all [X.ops, X.div, X.lt, X.beq]
+  div_nonpos := by
+    intro a t ha ⟨ht1, ht2, ht3⟩
+    cases a <;> cases t <;> simp_all [X.ops, X.div, X.lt]
+    rename_i a c
+    intro ha0
+    exact Int.ediv_nonpos_of_nonpos_of_neg ha0 ht2
+  div_zero := by
+    intro t ⟨ht1, ht2, ht3⟩
+    cases t <;> simp_all [X.ops, X.div, X.lt]
+  zero_lt_posInf := by decide
+  posInfGood := by decide
+
+
+theorem isDesc_head_max {o : Ops α} (h : OrdLawsOn o) : ∀ (l : List α) (a : α),
+    (∀ v ∈ a :: l, o.isNaN v = false) → isDesc o (a :: l) = true → ∀ v ∈ a :: l, o.lt a v = false := by
+  intro l
+  induction l with
+  | nil => intro a hg _ v hv; simp at hv; subst hv; exact h.irrefl _ (hg _ List.mem_cons_self)
+  | cons b rest ih =>
+    intro a hg hd v hv
+    simp only [isDesc, Bool.and_eq_true, Bool.not_eq_true'] at hd
+    rcases List.mem_cons.1 hv with rfl | hv'
+    · exact h.irrefl _ (hg _ List.mem_cons_self)
+    · have hb := ih b (fun v hv => hg v (List.mem_cons_of_mem _ hv)) hd.2 v hv'
+      cases hav : o.lt a v with
+      | false => rfl
+      | true =>
+        rcases h.cotrans a b v (hg a List.mem_cons_self) (hg b (List.mem_cons_of_mem _ List.mem_cons_self))
+          (hg v hv) hav with h1 | h1
+        · rw [hd.1] at h1; cases h1
+        · rw [hb] at h1; cases h1
+
+/-- **after the max-shift, two of the run contracts are theorems**: from the shift's own contract
+    (`scaleOK` on (L, L1)) and NaN-freeness of the shifted values, the guard `guardOK` and the
+    `temperature` stage's contract `scaleOK` on (L1, scaled) FOLLOW, for every finite positive
+    divisor `max(temp, 1e-7)` — they need not be assumed per run any more. -/
+theorem contracts_after_shift {o : Ops α} (h : OrdLawsOn o) (hs : ScaleLawsOn o)
+    (hrefl : ∀ a, o.isNaN a = false → o.beq a a = true)
+    (P : Params α) (t0 : Tok α) (rest : List (Tok α)) (L1 : List (Tok α))
+    (hsm : shiftMax o (t0 :: rest) = .ok L1) (ht0 : o.isNaN t0.val = false)
+    (hL1 : ∀ v ∈ L1.map (·.val), o.isNaN v = false)
+    (hsh : scaleOK o ((t0 :: rest).map (·.val)) (L1.map (·.val)) = true)
+    (ht : posFinite o (fmax o P.temp o.tempFloor)) :
+    guardOK o (scaledOf o P L1) = true ∧ scaleOK o (L1.map (·.val)) (scaledOf o P L1) = true ∧
+    ∀ s ∈ scaledOf o P L1, o.isNaN s = false := by
+  -- the shifted list starts with 0
+  have hhead : ∃ tl, L1.map (·.val) = o.zero :: tl := by
+    simp only [shiftMax] at hsm
+    split at hsm
+    · cases hsm
+    · injection hsm with hsm
+      rw [← hsm]
+      simp [hrefl t0.val ht0]
+  obtain ⟨tl, htl⟩ := hhead
+  have hdesc : isDesc o (L1.map (·.val)) = true := by
+    unfold scaleOK at hsh
+    simp only [Bool.and_eq_true] at hsh
+    exact hsh.1.2
+  rw [htl] at hdesc hL1
+  have hnp := isDesc_head_max h tl o.zero hL1 hdesc
+  unfold scaledOf
+  rw [htl]
+  obtain ⟨c1, c2⟩ := scale_contract_of_laws hs P.temp (o.zero :: tl) ht hL1 hdesc
+  exact ⟨guard_of_laws h hs P.temp tl ht hL1 hnp, c1, c2⟩
+
+theorem xBeqRefl : ∀ a, X.ops.isNaN a = false → X.ops.beq a a = true := by
+  intro a; cases a <;> simp [X.ops, X.beq]
+
 end OllamaVerif.C18
